@@ -136,21 +136,14 @@ Section WithTok.
       + intros k0 c1 vs1 c2 vs2 H1 H2. apply (Hx k0 c1 vs1 c2 vs2); right; assumption.
   Qed.
 
-  (** FULL STATEMENT (false): check_valid (to_content e) = Ok tt -> valid e.  The check does not look at the
-      number of values in a class of multiplicity one, cannot see a key that [to_content] had to drop or a
-      constant that is not a singleton, and accepts a non-positive extent; see [to_content_valid_refuted]. *)
-  Theorem to_content_valid_partial e :
-    storable e -> hdr_tight (hdr_of e) -> Forall (fun n => 1 <= n) (shape (hdr_of e)) -> nondegenerate e ->
-    CM.check_valid (to_content qtok e) = Ok tt -> valid e.
+  (** each key once: the keys of one class are distinct (a dict), and the uniqueness rule separates the classes *)
+  Lemma to_content_nodup e :
+    storable e ->
+    (forall k c vs, In (k, (c, vs)) (entries e) -> class_ok (shape (hdr_of e)) c = true) ->
+    CS.valid_spec (JObj (to_members e)) = true -> NoDup (keys_e e).
   Proof.
-    intros [Hbase [Hconst Hcls]] Ht Hp Hnondeg Hck. rewrite to_content_members in Hck.
-    pose proof (reps_to_content e) as R.
-    pose proof (reps_wf_domain _ e R Hp) as Hwf.
-    apply (CPM.check_valid_iff_spec _ Hwf) in Hck.
-    assert (Hcok : forall k c vs, In (k, (c, vs)) (entries e) -> class_ok (shape (hdr_of e)) c = true).
-    { intros k c vs Hin. rewrite <- (Ht c). apply (Hbase _ _ _ Hin). }
-    apply (reps_valid _ e R Hck Hp); try assumption.
-    pose proof Hck as Hrules. apply CPM.valid_spec_rules in Hrules as [_ [_ [_ [R4 [_ [_ [_ R8]]]]]]].
+    intros [Hbase [Hconst Hcls]] Hcok Hck. pose proof (reps_to_content e) as R.
+    apply CPM.valid_spec_rules in Hck as [_ [_ [_ [R4 [_ [_ [_ R8]]]]]]].
     pose proof (shape_value_reps _ _ R) as Hshape.
     assert (Hn : 3 <= length (shape (hdr_of e)) <= 5).
     { unfold CS.rule_ndim in R4. rewrite Hshape, map_length in R4. apply andb_true_iff in R4 as [A B].
@@ -171,6 +164,23 @@ Section WithTok.
     apply CL.intersects_true. exists k. split; apply in_map_iff.
     - exists (k, render c1 vs1). split; [reflexivity|]. apply in_class_obj. exists vs1. split; [exact H1 | reflexivity].
     - exists (k, render c2 vs2). split; [reflexivity|]. apply in_class_obj. exists vs2. split; [exact H2 | reflexivity].
+  Qed.
+
+  (** FULL STATEMENT (false): check_valid (to_content e) = Ok tt -> valid e.  The check does not look at the
+      number of values in a class of multiplicity one, cannot see a key that [to_content] had to drop or a
+      constant that is not a singleton, and accepts a non-positive extent; see C07_content_valid_refuted. *)
+  Theorem to_content_valid_partial e :
+    storable e -> hdr_tight (hdr_of e) -> Forall (fun n => 1 <= n) (shape (hdr_of e)) -> nondegenerate e ->
+    CM.check_valid (to_content qtok e) = Ok tt -> valid e.
+  Proof.
+    intros Hst Ht Hp Hnondeg Hck. rewrite to_content_members in Hck.
+    pose proof (reps_to_content e) as R.
+    pose proof (reps_wf_domain _ e R Hp) as Hwf.
+    apply (CPM.check_valid_iff_spec _ Hwf) in Hck.
+    assert (Hcok : forall k c vs, In (k, (c, vs)) (entries e) -> class_ok (shape (hdr_of e)) c = true).
+    { intros k c vs Hin. rewrite <- (Ht c). apply (proj1 Hst _ _ _ Hin). }
+    apply (reps_valid _ e R Hck Hp); try assumption; [|apply Hst].
+    apply (to_content_nodup e Hst Hcok Hck).
   Qed.
 
   (** ** JSON well-formedness *)
